@@ -47,6 +47,27 @@ def foldQR (n : Nat) (A Qin : Mat Rat) : St Rat × Nat × Nat := Id.run do
     s := { W := freeze n s'.W, Q := freeze n s'.Q, R := freeze n s'.R }
   return (s, nsq, sqc)
 
+/-- length of the longest cycle of the permutation `p` of `0..n-1` (1 = identity) -/
+private def maxCycle (n : Nat) (p : Array Nat) : Nat :=
+  (List.range n).foldl (fun best i =>
+    let len := (List.range n).foldl (fun (acc : Nat × Nat × Bool) _ =>
+      let (x, l, done) := acc
+      if done then acc else
+        let y := p.getD x 0
+        if y == i then (y, l + 1, true) else (y, l + 1, false)) (i, 0, false)
+    if len.2.1 > best then len.2.1 else best) 0
+
+/-- does the pivot search of some column meet a tie for the maximal |A(i,j)|, i ≥ j ? -/
+private def hasTie (n : Nat) (A : Mat Rat) : Bool :=
+  (List.range n).any fun j =>
+    let col := ((List.range n).filter (fun i => j ≤ i)).map (fun i => ratAbs (A i j))
+    let m := col.foldl (fun a b => if a < b then b else a) 0
+    (col.filter (fun x => x == m)).length ≥ 2
+
+private def routeOf (strat : String) : String :=
+  let arg := if strat.endsWith "_expr" then "expr" else if strat.endsWith "_sum" then "sum" else if strat.endsWith "_trans" then "trans" else "tensor"
+  arg ++ "-" ++ (if strat.startsWith "pivm" then "pivm" else if strat.startsWith "piv" then "pivv" else "nopiv")
+
 def runQR (kv : List (String × String)) : String := Id.run do
   let some n := getN kv "n" | return "bad-op"
   let some strat := getS kv "strat" | return "bad-op"
@@ -70,7 +91,9 @@ def runQR (kv : List (String × String)) : String := Id.run do
   let (sd, nsqd, _) := if piv then foldQR n A Qin else (s, nsq, sqc)
   let det := diagProd n sd.R
   let ptxt := ",".intercalate (permA.toList.map toString)
-  let route := (if strat.endsWith "_expr" then "expr-" else "tensor-") ++ (if pmat then "pivm" else if piv then "pivv" else "nopiv")
-  return s!"route={route} Q={showMat n s.Q} R={showMat n s.R} P={ptxt} DET={showRat det} NSQ={nsq + nsqd} SQC={sqc} NST={s.W.stores},{s.Q.stores},{s.R.stores}"
+  let route := routeOf strat
+  let pc := if piv then maxCycle n permA else 1
+  let tie := if piv && hasTie n A then 1 else 0
+  return s!"route={route} PCYC={pc} TIE={tie} Q={showMat n s.Q} R={showMat n s.R} P={ptxt} DET={showRat det} NSQ={nsq + nsqd} SQC={sqc} NST={s.W.stores},{s.Q.stores},{s.R.stores}"
 
 end Fastor.Driver
